@@ -684,9 +684,12 @@ class Execution_Part_Construct(Base):  # R209
 
     """
 
+    # C201: the blocks of executable constructs are part of an
+    # execution-part, which shall not contain an end-function-stmt,
+    # end-program-stmt or end-subroutine-stmt.
     subclass_names = [
         "Comment",
-        "Executable_Construct",
+        "Executable_Construct_C201",
         "Format_Stmt",
         "Entry_Stmt",
         "Data_Stmt",
